@@ -16,8 +16,11 @@ from harness.pool import run_cases
 PROP = "C10"
 
 
-def handler_ids(nodes):
+def handler_ids(nodes, xsdo=None):
     ids = {0}
+    for nid, txs in (xsdo or {}).items():
+        if nid in nodes:
+            ids |= set(txs)
     for nid, kind in nodes.items():
         ids |= {0x580 + nid, 0x700 + nid, 0x80 + nid} if kind == "remote" else {0x600 + nid}
     return ids
@@ -32,11 +35,13 @@ def from_behaviour(beh, rng):
     for h in beh:
         if h["op"] == "add":
             ops.append({"op": "add", "nid": h["nid"], "kind": h["kind"], "how": rng.choice(["add", "setitem"])})
+        elif h["op"] == "addsdo":
+            ops.append({"op": "addsdo", "nid": h["nid"], "tx": h["id"]})
         elif h["op"] == "remove":
             ops.append({"op": "remove", "nid": h["nid"]})
         else:
             ops.append({"op": h["op"], "id": h["id"], "k": h["k"]})
-        for cid in (0, 1410, 291, 0x702, 0x703, 0x82, 0x602, 0x603, 0x583):
+        for cid in (0, 1410, 291, 0x702, 0x703, 0x82, 0x602, 0x603, 0x583, 1442, 1443):
             ts += 1
             if rng.random() < 0.5:
                 ops.append(probe(rng, cid, ts))
@@ -49,6 +54,7 @@ def random_ops(rng, length):
     pool_ids = [0, 0x123, 0x582, 0x583, 0x702, 0x82, 0x602, 0x7FF, 0x800, 0x10701, 0x1FFFFFFF, 0x181, 0x7E4]
     node_ids = [2, 3, 127, 1]
     subscribed = {}
+    xsdo = {}
     for _ in range(length):
         r = rng.random()
         ts += rng.randrange(1, 50)
@@ -64,32 +70,42 @@ def random_ops(rng, length):
             # unsubscribe-all only where no node handler / LSS handler lives (removing a node whose
             # handler was unsubscribed by hand raises in the library; outside the property)
             cid = rng.choice(pool_ids)
-            if cid not in handler_ids(nodes) and cid != 0x7E4:
+            if cid not in handler_ids(nodes, xsdo) and cid != 0x7E4:
                 ops.append({"op": "unsuball", "id": cid})
                 subscribed.pop(cid, None)
         elif r < 0.44:
             nid, kind = rng.choice(node_ids), rng.choice(["remote", "local"])
-            ops.append({"op": "add", "nid": nid, "kind": kind, "how": rng.choice(["add", "setitem"])})
+            extra = [0x5C0 + nid] if kind == "remote" and rng.random() < 0.3 else []
+            ops.append({"op": "add", "nid": nid, "kind": kind, "how": rng.choice(["add", "setitem"]), "extra": extra})
             nodes[nid] = kind
+            xsdo[nid] = set(extra)
+        elif r < 0.47:
+            rem = [n for n, k in nodes.items() if k == "remote"]
+            if rem:
+                nid = rng.choice(rem)
+                tx = rng.choice([0x5A0 + nid, 0x5C0 + nid, 0x123])
+                ops.append({"op": "addsdo", "nid": nid, "tx": tx})
+                xsdo.setdefault(nid, set()).add(tx)
         elif r < 0.50:
             if nodes:
                 nid = rng.choice(sorted(nodes))
                 ops.append({"op": "remove", "nid": nid})
                 del nodes[nid]
+                xsdo.pop(nid, None)
         elif r < 0.80:
-            cid = rng.choice(pool_ids + sorted(handler_ids(nodes)) + [0x700 + rng.randrange(1, 128)])
-            needs8 = cid in handler_ids(nodes) or cid in (0x82, 0x582, 0x583, 0x702, 0x602, 0)
+            cid = rng.choice(pool_ids + sorted(handler_ids(nodes, xsdo)) + [0x700 + rng.randrange(1, 128)])
+            needs8 = cid in handler_ids(nodes, xsdo) or cid in (0x82, 0x582, 0x583, 0x702, 0x602, 0)
             d = [rng.randrange(256) for _ in range(8 if needs8 else rng.randrange(0, 9))]
             ops.append({"op": "notify", "id": cid, "d": d, "ts": ts})
         elif r < 0.88:
             cid = rng.choice(pool_ids)
             kind = rng.choice(["data", "err", "rtr", "boom"])
-            if kind == "boom" and cid not in handler_ids(nodes) and cid != 0x7E4:
+            if kind == "boom" and cid not in handler_ids(nodes, xsdo) and cid != 0x7E4:
                 ops.append({"op": "sub", "id": cid, "k": 99})
                 ops.append({"op": "listener", "id": cid, "d": [1, 2, 3, 4, 5, 6, 7, 8], "ts": ts})
                 ops.append({"op": "unsub", "id": cid, "k": 99})
             else:
-                needs8 = cid in handler_ids(nodes) or cid in (0x82, 0x582, 0x583, 0x702, 0x602, 0)
+                needs8 = cid in handler_ids(nodes, xsdo) or cid in (0x82, 0x582, 0x583, 0x702, 0x602, 0)
                 ops.append({"op": "listener", "id": cid, "d": [rng.randrange(256) for _ in range(8 if needs8 else rng.randrange(0, 9))],
                             "ts": ts, "err": kind == "err", "rtr": kind == "rtr"})
         elif r < 0.97:
